@@ -37,6 +37,9 @@ def run(ctx):
     r3_export_order(ctx, g, flows)
     r4_separators(ctx)
     check_nullish_tables(ctx, 'R5')
+    if ctx.tier == 'thorough':
+        from .. import regen
+        regen.check(ctx, 'R6')
 
 
 # --------------------------------------------------------------------------- order dataflow
